@@ -16,13 +16,63 @@ fn exec_line(line: &str) -> String {
             line
         );
     }
+    if let Some(f) = parse_fan(line) {
+        let c = fan_case(&f);
+        let head = format!(
+            "fan_case {} {}%nat {}%nat {} {}",
+            f.interm, f.n, f.r, f.vout, f.data.coq()
+        );
+        let wrap = move |plan: &str, plan_noip: &str, runs: &str| format!("{} {} {} {}", head, plan, plan_noip, runs);
+        let (tag, term) = exec_case_full(&c, None, Some(&wrap));
+        return format!("fan{}-{}\t{}\t{}", f.n * f.r + 1 + f.vout as usize, tag, line, term);
+    }
     let c = parse_case(line);
     let (tag, term) = exec_case(&c);
     format!("{}\t{}\t{}", tag, line, term)
 }
 
+/// Fan-out family (`F interm,n,r,vout|data|runs`): see coq/exec/FanModel.v for the layout.
+struct Fan {
+    interm: bool,
+    n: usize,
+    r: usize,
+    vout: bool,
+    data: Data,
+    runs: String,
+}
+
+fn parse_fan(line: &str) -> Option<Fan> {
+    let rest = line.trim().strip_prefix("F ")?;
+    let p: Vec<&str> = rest.split('|').collect();
+    let f = parse_ids(p[0]);
+    Some(Fan { interm: f[0] != 0, n: f[1] as usize, r: f[2] as usize, vout: f[3] != 0, data: Data::parse(p[1]), runs: p[2].to_string() })
+}
+
+fn fan_case(f: &Fan) -> Case {
+    let (v, base) = if f.interm { (2u32, 3u32) } else { (0u32, 1u32) };
+    let mut nodes: Vec<String> = vec!["v".into()];
+    if f.interm {
+        nodes.push("o:0:2::-:-:-".into());
+        nodes.push("v".into());
+    }
+    for j in 0..f.n as u32 {
+        let o = base + 2 * j;
+        let mut ins: Vec<String> = vec![v.to_string(); f.r];
+        if j > 0 {
+            ins.push((o - 1).to_string());
+        }
+        nodes.push(format!("o:{}:{}:0:m:-:-", ins.join(","), o + 1));
+        nodes.push("v".into());
+    }
+    let e = base + 2 * f.n as u32;
+    nodes.push(format!("o:{},{}:{}:1:m:-:-", e - 1, v, e + 1));
+    nodes.push("v".into());
+    let outs = if f.vout { format!("{},{}", e + 1, v) } else { (e + 1).to_string() };
+    parse_case(&format!("{}|0={}|{}|{}", nodes.join(";"), f.data.fmt(), outs, f.runs))
+}
+
 fn timeout_line(line: &str) -> String {
-    let c = parse_case(if line.starts_with("R ") { "v|0=1|0|" } else { line });
+    let c = parse_case(if line.starts_with("R ") || line.starts_with("F ") { "v|0=1|0|" } else { line });
     format!("timeout\t{}\t{}", line, timeout_term(&c))
 }
 
@@ -46,6 +96,20 @@ fn generate(seed: u64, n: usize, tier: &str, out: &mut dyn Write) {
     // sticky reference counts (254 / 255 / 256 / 300 uses)
     for (a, b) in [(127, 126), (127, 127), (128, 127), (200, 99), (3, 2)] {
         writeln!(out, "{}", fmt_case(&sticky_case(&mut rng, a, b))).unwrap();
+    }
+    // fan-out family: uses = n*r + 1 (+1 when the value is also requested) around the u8 saturation point
+    let fans: [(usize, usize); 10] = [(254, 1), (127, 2), (255, 1), (51, 5), (85, 3), (256, 1), (128, 2), (64, 4), (299, 1), (23, 13)];
+    let picks = if full { 10 } else { 4 };
+    for k in 0..picks {
+        let (fn_, fr) = if full { fans[k] } else { fans[(rng.below(3) as usize + [2usize, 5, 0, 8][k]) % 10] };
+        let interm = rng.chance(1, 2);
+        let vout = rng.chance(1, 4);
+        writeln!(
+            out,
+            "F {},{},{},{}|@{}/2|0,1,0,0;1,1,0,0;1,0,0,0;1,1,1,0",
+            interm as u8, fn_, fr, vout as u8, rng.below(100000)
+        )
+        .unwrap();
     }
     for i in 0..n {
         let opts = GenOpts {
